@@ -121,7 +121,7 @@ def cases(ctx):
         tx["outs"][1]["value"] = 0
         yield enc_case(tx, "ints")
     # random generated + mutated
-    n = 700 if thorough else 45
+    n = 2000 if thorough else 45
     for _ in range(n):
         tx = gen.gen_tx(r, script_kw={"minimal": r.random() < 0.5, "depth": r.choice([1, 3, 6])})
         c = enc_case(tx, "random")
